@@ -51,3 +51,19 @@ Proof.
   - inversion H0; subst. eexists _, _. split; reflexivity.
 Qed.
 Print Assumptions C05_relay_ok_reads.
+
+(* EVERY WRITE IS EVENTUALLY PUBLISHED: in every reachable world the outbox IDs are distinct ... *)
+Theorem C05_outbox_ids_distinct : forall c ops, hist_ok ops -> NoDup (map o_id (w_outbox (fst (run_ops c ops)))).
+Proof. intros c ops H. apply (wi_oids c _ (final_WI c ops H)). Qed.
+Print Assumptions C05_outbox_ids_distinct.
+
+(* ... and a fault-free relay cycle (no fault in the plan, role held, instance alive) over the first [limit] entries of an
+   outbox with distinct IDs succeeds, publishes exactly those min(limit, n) entries and leaves exactly the remaining ones:
+   ceil(n / limit) fault-free cycles empty an outbox of n entries *)
+Theorem C05_fault_free_cycle_drains : forall limit s,
+  ff s -> NoDup (map o_id (w_outbox (o_w s))) ->
+  exists s', relay_entries (firstn limit (w_outbox (o_w s))) s = (Ok tt, s') /\
+    w_outbox (o_w s') = skipn limit (w_outbox (o_w s)) /\
+    length (w_log (o_w s')) = (length (w_log (o_w s)) + Nat.min limit (length (w_outbox (o_w s))))%nat.
+Proof. exact relay_cycle_drains. Qed.
+Print Assumptions C05_fault_free_cycle_drains.
